@@ -1,12 +1,19 @@
 """C18 — Logic blocks count, accrue and sequence exactly as specified.
 
-One case = one machine boot with several counters / accruals / sequences configured at machine level from a
-generated config, driven through their own control events on one virtual-time line (125 ms grid).  Per block the
-harness records every logicblock_<n>_updated/_hit/_complete, counter_<n>_hit and <n>_timeout event (with its
-virtual time) and, after every operation, a snapshot (value, enabled, completed, ignore_hits, pending delays).
-The Coq model (coq/C18/Model.v: `run`) is evaluated on the same configuration and operation groups and must
-produce exactly the same observation list; the oracle below re-evaluates the property's own predicate (value
-formula, hit events per accepted hit, completion once and follow-up) on the implementation's output.
+Three suites, each one real machine boot per case on the virtual clock (125 ms grid):
+ * blocks:  several counters / accruals / sequences configured at machine level, driven through their own control
+            events; per block the harness records every logicblock_<n>_updated/_hit/_complete, counter_<n>_hit and
+            <n>_timeout event (with its virtual time) and, after every operation, a snapshot (value, enabled, completed,
+            ignore_hits, pending delays).  Model: coq/C18/Model.v `run`.
+ * delayed: the same blocks whose control events also exist in a delayed variant (`count_events: {ev: 500ms}` ...),
+            posted in bursts closer together than the delay.  Model: coq/C18/Delayed.v `run_delayed` (every post its
+            own delivery at post time + delay).
+ * modes:   blocks configured in a game mode that is started and stopped during the history (with and without
+            persist_state, start_enabled / enable_events defaults, starting_count / count_complete_value as machine
+            variable templates that change).  Model: coq/C18/MBlock.v `mrun_case`.
+The Coq model is evaluated on the same configuration and operations and must produce exactly the same observation
+list; the oracle below re-evaluates the property's own predicate (value formula, hit events per accepted hit,
+completion once and follow-up, timeout instants, mode life cycle) on the implementation's output.
 """
 from vlib import Suite, zlit, coqlist, blit, opt
 
@@ -18,19 +25,38 @@ RULE = ("blocks: per boot 8 machine-level logic blocks (4 counters, 2 accruals, 
         "8-28 operation groups (count/step/enable/disable/reset/restart/add/subtract/jump, events shared between two "
         "roles or two steps) at instants on the 125 ms grid chosen to fall inside the window, at the window end, at the "
         "timeout instant and past several timeout periods; non-trivial = the block history contains an accepted hit and "
-        "at least one of: completion, ignored hit (disabled or in window), timeout, out-of-order step; distinct by case hash")
+        "at least one of: completion, ignored hit (disabled or in window), timeout, out-of-order step. "
+        "delayed: per boot 4 blocks (3 counters + accrual or sequence) whose count/enable/disable/reset/restart events "
+        "also exist with a delay of 125-1000 ms; 4-10 rounds of: a burst of 2-4 posts of one delayed event 125 ms .. "
+        "one delay apart (undelayed operations in between), a single delayed post, or an undelayed operation; the due "
+        "instants of one block's deliveries are pairwise distinct; blocks in which a delivery falls on the due instant "
+        "of the block's own timeout / hit-window delay (order unspecified by asyncio) are detected on the implementation "
+        "(probe of the pending deadlines one grid step before) and left out of comparison and oracle; non-trivial = "
+        "two posts of one delayed event in flight together. "
+        "modes: per boot one game mode with 5 blocks (3 counters, accrual, sequence; persist_state / start_enabled / "
+        "enable_events drawn per block; 35% with reset_on_complete = disable_on_complete = false), 8-22 operation groups "
+        "per block incl. operations while the mode is not running, mode start/stop toggles 125 ms - 2 s apart incl. "
+        "repeated starts and stops while stopped, changes of the machine variables behind starting_count and "
+        "count_complete_value; non-trivial = a block was hit while running, operated while not running and the mode "
+        "started at least twice.  Distinct by case hash.")
 TRUSTED_BASE = [
     "Coq 8.16.1 kernel (coqc), vm_compute for evaluating the model in the correspondence run; no native_compute",
     "axioms: none (every Print Assumptions is 'Closed under the global context')",
-    "hand-written model coq/C18/Model.v tied to /repo by correspondence: harness/props/c18.py boots real machines "
-    "(harness/rig.py, virtual clock) and compares full per-block event traces and state snapshots with the model",
-    "MPF's EventManager (dispatch order by priority), DelayManager and the test clock are used as they are; the order of "
-    "handlers on one shared event (enable 20 > restart 5 > reset 4 > count 0; sequence step k+1 before step k; accrual "
-    "steps in config order) is encoded in the harness and validated by the same comparison",
+    "hand-written model coq/C18/Model.v + Delayed.v + MBlock.v tied to /repo by correspondence: harness/props/c18.py boots "
+    "real machines (harness/rig.py, virtual clock) and compares full per-block event traces and state snapshots with the model",
+    "MPF's EventManager (dispatch order by priority), DelayManager, mode controller, machine variables and the test clock "
+    "are used as they are; the order of handlers on one shared event (enable 20 > restart 5 > reset 4 > count 0; sequence "
+    "step k+1 before step k; accrual steps in config order) is encoded in the harness and validated by the same comparison",
+    "a timer due at instant t fires before anything the harness posts at t (asyncio runs due timers while the clock "
+    "advances); the relative order of two timers due at the same instant is not relied upon",
 ]
 ASSUMPTIONS = [
-    "blocks live at machine level (persist_state false); the mode-stop interaction belongs to C07",
     "integer configuration values; delays are multiples of 125 ms (>= 125 ms) and all instants lie on the 125 ms grid",
+    "delayed control events: machine-level blocks only (mode-level delayed control events use the mode's DelayManager and "
+    "are dropped at mode stop: not exercised); a delivery due at the same instant as the block's own timeout / window "
+    "delay is excluded (counted in NOTES.md: about a fifth of the delayed blocks)",
+    "mode-level blocks: one game, one player, no ball end during the history (player change / per-player restore is "
+    "C07/C11); delayed control events and advance_random_events are not exercised there",
     "advance_random_events (uses random.shuffle) is not exercised",
 ]
 
@@ -150,52 +176,153 @@ def gen_case(rng, tier, i):
     return {"blocks": blocks, "timeline": timeline, "end": end}
 
 
+# ---- delayed control events (count_events: {ev: 500ms} ...) ---------------------------------------
+
+DELAYS = [125, 250, 250, 375, 500, 500, 750, 1000]
+
+
+def gen_delayed_block(rng, kind, t):
+    """configuration + posts [t, ev, amount, model ops, delay] of one block whose control events also exist in a
+    delayed variant (d<role>); bursts of the same delayed event closer together than its delay, mixed with undelayed
+    operations.  The due instants of a block's deliveries are pairwise distinct (their order would be unspecified)."""
+    c = gen_cfg(rng, kind)
+    if rng.random() < 0.65:
+        c["timeout"] = 0
+    if kind == "counter" and rng.random() < 0.6:
+        c["window"] = 0
+    roles = ["disable", "reset", "restart"] + (["count"] if kind == "counter" else []) + \
+            ([] if c["boot_enabled"] else ["enable"])
+    c["delays"] = {r: rng.choice(DELAYS) for r in roles if r == "count" or rng.random() < 0.7}
+    if not c["delays"]:
+        c["delays"]["reset"] = rng.choice(DELAYS)
+    n = c["n"]
+    mops = {"count": [["Count"]], "enable": [["Enable"]], "disable": [["Disable"]], "reset": [["Reset"]],
+            "restart": [["Restart"]]}
+    dues = set()
+    out = []
+
+    def hit():
+        if kind == "counter":
+            return ("count", None, [["Count"]])
+        k = rng.randrange(n)
+        return ("s%d" % k, None, [["Hit", k]])
+
+    def plain():
+        r = rng.random()
+        if r < 0.5:
+            return hit()
+        role = rng.choice(["disable", "reset", "restart"] + ([] if c["boot_enabled"] else ["enable", "enable"]))
+        return (role, None, mops[role])
+
+    def emit(dt, e, delay=0):
+        nonlocal t
+        t += dt
+        if delay:
+            while t + delay in dues:
+                t += GRID
+            dues.add(t + delay)
+        out.append([t, e[0], e[1], e[2], delay])
+
+    def delayed(role):
+        return ("d" + role, None, mops[role])
+
+    if not c["boot_enabled"] and rng.random() < 0.8:
+        emit(rng.choice([0, 125]), ("enable", None, mops["enable"]))
+    for _ in range(rng.randint(4, 10)):
+        r = rng.random()
+        gaps = [0, 125, 125, 250, 250, 375, 500, 1000]
+        if r < 0.5:
+            # burst: 2-4 posts of one delayed event closer together than its delay
+            role = rng.choice(sorted(c["delays"]) + (["count"] * 3 if "count" in c["delays"] else []))
+            d = c["delays"][role]
+            emit(rng.choice(gaps), delayed(role), d)
+            for _ in range(rng.randint(1, 3)):
+                if rng.random() < 0.4:
+                    emit(rng.choice([0, 125]), plain())
+                emit(rng.choice([125, 125, 250, max(125, d - 125), d]), delayed(role), d)
+        elif r < 0.7:
+            role = rng.choice(sorted(c["delays"]))
+            emit(rng.choice(gaps), delayed(role), c["delays"][role])
+        else:
+            emit(rng.choice(gaps), plain())
+    return c, out
+
+
+def gen_case_delayed(rng, tier, i):
+    kinds = ["counter", "counter", "counter", rng.choice(["accrual", "sequence"])]
+    blocks, timeline = [], []
+    for b, kind in enumerate(kinds):
+        c, posts = gen_delayed_block(rng, kind, T0 + GRID * rng.randrange(0, 4))
+        blocks.append(c)
+        timeline += [[t, b, ev, amount, m, d] for t, ev, amount, m, d in posts]
+    timeline.sort(key=lambda x: x[0])
+    end = max(x[0] + x[5] for x in timeline) + rng.choice([0, 125, 1000, 2500])
+    return {"blocks": blocks, "timeline": timeline, "end": end}
+
+
 # ------------------------------------------------------------------------------------------------
 # implementation side
 
 
-def machine_config(blocks):
-    cfg = {"counters": {}, "accruals": {}, "sequences": {}}
-    for b, c in enumerate(blocks):
-        nm = "b%d" % b
-        d = {"disable_events": "%s_disable, %s_rd" % (nm, nm),
-             "reset_events": "%s_reset" % nm,
-             "restart_events": "%s_restart, %s_rd" % (nm, nm),
-             "reset_on_complete": bool(c["roc"]), "disable_on_complete": bool(c["doc"])}
-        if c["timeout"]:
-            d["logic_block_timeout"] = "%dms" % c["timeout"]
-        if c["kind"] == "counter":
-            if not c["boot_enabled"]:
-                d["enable_events"] = "%s_enable, %s_ec" % (nm, nm)
-                d["count_events"] = "%s_count, %s_cr, %s_ec" % (nm, nm, nm)
-            else:
-                d["count_events"] = "%s_count, %s_cr" % (nm, nm)
-            d["reset_events"] = "%s_reset, %s_cr" % (nm, nm)
-            d["direction"] = "down" if c["down"] else "up"
-            d["count_interval"] = c["interval"]
-            d["starting_count"] = c["start"]
-            if c["goal"] is not None:
-                d["count_complete_value"] = c["goal"]
-            if c["window"]:
-                d["multiple_hit_window"] = "%dms" % c["window"]
-            d["control_events"] = [{"action": "add", "event": "%s_add" % nm, "value": "amount"},
-                                   {"action": "subtract", "event": "%s_sub" % nm, "value": "amount"},
-                                   {"action": "jump", "event": "%s_jump" % nm, "value": "amount"}]
-            cfg["counters"][nm] = d
+def _evs(nm, names, delayed=None):
+    """control event setting: plain string list, or {event: delay_ms} when some event is configured with a delay"""
+    if not delayed:
+        return ", ".join("%s_%s" % (nm, x) for x in names)
+    d = {"%s_%s" % (nm, x): 0 for x in names}
+    d["%s_%s" % (nm, delayed[0])] = "%dms" % delayed[1]
+    return d
+
+
+def block_config(nm, c):
+    """(config section, settings) of one block"""
+    dl = c.get("delays") or {}
+
+    def ev(role, names):
+        return _evs(nm, names, ("d" + role, dl[role]) if role in dl else None)
+    d = {"disable_events": ev("disable", ["disable", "rd"]),
+         "reset_events": ev("reset", ["reset"]),
+         "restart_events": ev("restart", ["restart", "rd"]),
+         "reset_on_complete": bool(c["roc"]), "disable_on_complete": bool(c["doc"])}
+    if c["timeout"]:
+        d["logic_block_timeout"] = "%dms" % c["timeout"]
+    if c["kind"] == "counter":
+        if not c["boot_enabled"]:
+            d["enable_events"] = ev("enable", ["enable", "ec"])
+            d["count_events"] = ev("count", ["count", "cr", "ec"])
         else:
-            if not c["boot_enabled"]:
-                d["enable_events"] = "%s_enable" % nm
-            evs = []
-            for k in range(c["n"]):
-                names = ["%s_s%d" % (nm, k)]
-                if k + 1 < c["n"]:
-                    names.append("%s_x%d" % (nm, k))
-                if k >= 1:
-                    names.append("%s_x%d" % (nm, k - 1))
-                evs.append(", ".join(names))
-            d["events"] = evs
-            cfg["accruals" if c["kind"] == "accrual" else "sequences"][nm] = d
-    return {k: v for k, v in cfg.items() if v}
+            d["count_events"] = ev("count", ["count", "cr"])
+        d["reset_events"] = ev("reset", ["reset", "cr"])
+        d["direction"] = "down" if c["down"] else "up"
+        d["count_interval"] = c["interval"]
+        d["starting_count"] = c["start"]
+        if c["goal"] is not None:
+            d["count_complete_value"] = c["goal"]
+        if c["window"]:
+            d["multiple_hit_window"] = "%dms" % c["window"]
+        d["control_events"] = [{"action": "add", "event": "%s_add" % nm, "value": "amount"},
+                               {"action": "subtract", "event": "%s_sub" % nm, "value": "amount"},
+                               {"action": "jump", "event": "%s_jump" % nm, "value": "amount"}]
+        return "counters", d
+    if not c["boot_enabled"]:
+        d["enable_events"] = ev("enable", ["enable"])
+    evs = []
+    for k in range(c["n"]):
+        names = ["%s_s%d" % (nm, k)]
+        if k + 1 < c["n"]:
+            names.append("%s_x%d" % (nm, k))
+        if k >= 1:
+            names.append("%s_x%d" % (nm, k - 1))
+        evs.append(", ".join(names))
+    d["events"] = evs
+    return ("accruals" if c["kind"] == "accrual" else "sequences"), d
+
+
+def machine_config(blocks):
+    cfg = {}
+    for b, c in enumerate(blocks):
+        sec, d = block_config("b%d" % b, c)
+        cfg.setdefault(sec, {})["b%d" % b] = d
+    return cfg
 
 
 def _canon_val(v):
@@ -252,23 +379,35 @@ def run_case(case):
         rig.advance(T0 / 1000.0 - rig.now())
         if rig.now() != T0 / 1000.0:
             return {"error": "could not align the clock: %r" % rig.now()}
-        for t, b, ev, amount, _ in case["timeline"]:
+        ties = set()
+        for what, t, b, arg in agenda(case):
             now = rig.now()
             if t / 1000.0 > now:
                 rig.advance(t / 1000.0 - now)
             if rig.now() != t / 1000.0:
                 return {"error": "clock off grid: %r vs %r" % (rig.now(), t)}
-            if amount is None:
-                rig.post("b%d_%s" % (b, ev))
-            else:
-                rig.post("b%d_%s" % (b, ev), amount=amount)
-            snap(b)
+            if what == "post":
+                ev, amount = arg
+                if amount is None:
+                    rig.post("b%d_%s" % (b, ev))
+                else:
+                    rig.post("b%d_%s" % (b, ev), amount=amount)
+                snap(b)
+            elif what == "dsnap":       # a delayed control event of block b was due at t: the timer has fired
+                snap(b)
+            else:                       # probe one grid step before a delivery: is one of the block's own delays
+                for name in ("timeout", "ignore_hits_within_window"):      # due at the same instant (a tie)?
+                    dl = devs[b].delay.delays.get(name)
+                    if dl is not None and abs(dl[0].when() * 1000.0 - arg) < 1e-3:
+                        ties.add(b)
         if end_time(case) / 1000.0 > rig.now():
             rig.advance(end_time(case) / 1000.0 - rig.now())
         for b in range(len(blocks)):
             snap(b)
         exc = rig.exception()
         out = {"logs": logs}
+        if ties:
+            out["ties"] = sorted(ties)
         if exc:
             out["exception"] = repr(exc)[:300]
         return out
@@ -355,14 +494,58 @@ def coq_obs(c, item, shared=False):
     return BAD
 
 
+def _delay(x):
+    return x[5] if len(x) > 5 else 0
+
+
 def end_time(case):
-    return max([T0, case["end"]] + [x[0] for x in case["timeline"]])
+    return max([T0, case["end"]] + [x[0] + _delay(x) for x in case["timeline"]])
+
+
+def agenda(case):
+    """what the harness does, in this order: ("post", t, b, (event, amount)) followed by a snapshot of block b;
+    ("dsnap", t, b, None): snapshot of b at the instant a delayed control event posted earlier is due (timers due
+    at t fire while the clock advances to t, i.e. before anything posted at t); ("probe", t, b, due): one grid step
+    before the delivery due at `due`, look for one of the block's own delays due at that same instant."""
+    items = []
+    for i, x in enumerate(case["timeline"]):
+        t, b, ev, amount = x[0], x[1], x[2], x[3]
+        items.append((t, 1, i, "post", b, (ev, amount)))
+        d = _delay(x)
+        if d:
+            items.append((t + d, 0, i, "dsnap", b, None))
+            items.append((t + d - GRID, 2, i, "probe", b, t + d))
+    items.sort(key=lambda it: it[:3])
+    return [(it[3], it[0], it[4], it[5]) for it in items]
+
+
+def deliver(posts):
+    """posts [(t, delay, ops)] in posting order -> operation groups [(instant, ops)]: a delayed post leaves an empty
+    group at its instant and its operations at t + delay, each inserted after every group due no later."""
+    groups = []
+
+    def insert(d, ops):
+        i = 0
+        while i < len(groups) and groups[i][0] <= d:
+            i += 1
+        groups.insert(i, (d, ops))
+    for t, d, ops in posts:
+        if d:
+            insert(t, [])
+            insert(t + d, ops)
+        else:
+            insert(t, ops)
+    return groups
+
+
+def block_posts(case, b):
+    p = [(x[0], _delay(x), x[4]) for x in case["timeline"] if x[1] == b]
+    p.append((end_time(case), 0, []))
+    return p
 
 
 def block_groups(case, b):
-    g = [(t, mops) for t, bb, ev, amount, mops in case["timeline"] if bb == b]
-    g.append((end_time(case), []))
-    return g
+    return deliver(block_posts(case, b))
 
 
 def aliased_groups(log):
@@ -373,7 +556,7 @@ def aliased_groups(log):
     res = set()
     start = 0
     for end, it in enumerate(log):
-        if it[0] != "snap":
+        if it[0] not in ("snap", "nosnap"):
             continue
         seg = range(start, end)
         found = False
@@ -395,14 +578,19 @@ def aliased_groups(log):
     return res
 
 
-def coq_case(case, out):
+def _coq_case(case, out, delayed):
     if "logs" not in out:
         return None
     ins, exps = [], []
     for b, c in enumerate(case["blocks"]):
-        groups = block_groups(case, b)
-        ins.append("(%s, %s)" % (coq_cfg(c), coqlist("(%s, %s)" % (zlit(t), coqlist(coq_op(o) for o in mops))
-                                                       for t, mops in groups)))
+        if b in out.get("ties", ()):
+            continue        # a delivery and one of the block's own delays were due at the same instant: order unspecified
+        if delayed:
+            ins.append("(%s, %s)" % (coq_cfg(c), coqlist("(%s, %s, %s)" % (zlit(t), zlit(d), coqlist(coq_op(o) for o in mops))
+                                                           for t, d, mops in block_posts(case, b))))
+        else:
+            ins.append("(%s, %s)" % (coq_cfg(c), coqlist("(%s, %s)" % (zlit(t), coqlist(coq_op(o) for o in mops))
+                                                           for t, mops in block_groups(case, b))))
         log = out["logs"][b]
         lenient = aliased_groups(log) if c["kind"] == "accrual" else set()
         terms = [coq_obs(c, it, j in lenient) for j, it in enumerate(log)]
@@ -410,16 +598,28 @@ def coq_case(case, out):
     return "(%s, %s)" % (coqlist(ins), coqlist(exps))
 
 
+def coq_case(case, out):
+    return _coq_case(case, out, False)
+
+
+def coq_case_delayed(case, out):
+    return _coq_case(case, out, True)
+
+
 HDR = ("From C18 Require Import Model.\n"
        "Definition run (i : list (cfg * list (Z * list op))) : list (list obs) := map C18.Model.run i.\n"
        "Definition out_eqb : list (list obs) -> list (list obs) -> bool := list_eqb C18.Model.out_eqb.\n")
+
+HDR_D = ("From C18 Require Import Model Delayed.\n"
+         "Definition run (i : list (cfg * list (Z * Z * list op))) : list (list obs) := map C18.Delayed.run_delayed i.\n"
+         "Definition out_eqb : list (list obs) -> list (list obs) -> bool := list_eqb C18.Model.out_eqb.\n")
 
 
 # ------------------------------------------------------------------------------------------------
 # oracle: the property's own predicate, evaluated on the implementation's observations only.
 # It keeps the bookkeeping the property text talks about (enabled?, inside the window?, hits accepted since the last
-# reset, completed since the last reset) and takes the observed <name>_timeout events as resets; it knows nothing of
-# delays, event order inside an operation or the update events.
+# reset, completed since the last reset, when the timeout is due, whether the block's mode runs); it knows nothing of
+# the window delay, event order inside an operation or the update events.
 
 def oracle_block(c, groups, log):
     fails = []
@@ -431,29 +631,38 @@ def oracle_block(c, groups, log):
     kind = c["kind"]
     hv = (-abs(c["interval"]) if c["down"] else abs(c["interval"])) if kind == "counter" else 0
     n = c["n"]
-    enabled = bool(c["boot_enabled"])
+    mode = c.get("mode")                        # block configured in a mode: {"start_enabled", "enable_events", "persist"}
+    running = mode is None                      # a machine-level block always exists
+    if mode is None:
+        enabled = bool(c["boot_enabled"])
+    else:
+        enabled = False
     completed = False
-    base, nacc = c["start"], 0                  # counter: value = base + hv * nacc
+    start, goal = c["start"], c["goal"]         # current values (templates may change)
+    base, nacc = start, 0                       # counter: value = base + hv * nacc
     steps = [False] * n                         # accrual
     pos = 0                                     # sequence
     last_accept = None                          # counter: instant of the last accepted hit
+    T = c["timeout"]
+    tdead = T if (T and enabled) else None      # when the block's timeout is due (armed by the enable at boot, t = 0)
+    saved = False                               # a state kept in the player (persist_state) exists
 
     def reached(v):
-        if c["goal"] is None:
+        if goal is None:
             return False
-        return v <= c["goal"] if c["down"] else v >= c["goal"]
+        return v <= goal if c["down"] else v >= goal
 
     def do_reset():
         nonlocal completed, base, nacc, steps, pos
         completed = False
-        base, nacc = c["start"], 0
+        base, nacc = start, 0
         steps = [False] * n
         pos = 0
 
     # split the log into one segment per snapshot
     segs, cur = [], []
     for it in log:
-        if it[0] == "snap":
+        if it[0] in ("snap", "nosnap"):
             segs.append((cur, it))
             cur = []
         else:
@@ -465,20 +674,60 @@ def oracle_block(c, groups, log):
         if any(it[1] < 0 for it in evs) or sn[1] != t:
             fail("time-off-grid", "an event was observed at a non-integral millisecond")
         exp_hits, exp_complete, exp_vals = [], 0, []
-        for it in evs:
-            if it[2] == "timeout":
-                do_reset()
+        # the timeout runs from the last enable / reset / restart / timeout and is stopped by disable, by completion and
+        # by the end of the block's mode; it resets the block every period.  A timeout due at t comes before what is
+        # posted at t.
+        exp_tmo = []
+        while tdead is not None and tdead <= t:
+            exp_tmo.append(tdead)
+            do_reset()
+            tdead += T
+        got_tmo = [it[1] for it in evs if it[2] == "timeout"]
+        if got_tmo != exp_tmo:
+            fail("timeout-events", "<name>_timeout posted at %r up to t=%d, the timeout (%d ms, running from the last "
+                 "enable/reset/restart/timeout, stopped by disable and completion) was due at %r" % (got_tmo, t, T, exp_tmo))
         for o in mops:
             goal_now = False
+            if o[0] == "MSetGoal":
+                goal = o[1]
+                continue
+            if o[0] == "MSetStart":
+                start = o[1]
+                continue
+            if o[0] == "MStart":
+                if not running:
+                    running = True
+                    last_accept = None
+                    tdead = None
+                    if not (mode["persist"] and saved):
+                        do_reset()
+                        se = mode["start_enabled"]
+                        enabled = se if se is not None else not mode["enable_events"]
+                        if enabled and T:
+                            tdead = t + T
+                continue
+            if o[0] == "MStop":
+                if running:
+                    running = False
+                    saved = bool(mode["persist"])
+                    tdead = None
+                    last_accept = None
+                continue
+            if not running:
+                continue                        # the block's mode is not running: nothing happens
             if o[0] == "Enable":
                 enabled = True
+                tdead = t + T if T else None
             elif o[0] == "Disable":
                 enabled = False
+                tdead = None
             elif o[0] == "Reset":
                 do_reset()
+                tdead = t + T if T else None
             elif o[0] == "Restart":
                 do_reset()
                 enabled = True
+                tdead = t + T if T else None
             elif o[0] == "Count" and kind == "counter":
                 inwin = c["window"] and last_accept is not None and t - last_accept < c["window"]
                 if enabled and not inwin:
@@ -511,10 +760,13 @@ def oracle_block(c, groups, log):
             if goal_now and not completed:
                 exp_complete += 1
                 completed = True
+                tdead = None
                 if c["roc"]:
                     do_reset()
+                    tdead = t + T if T else None
                 if c["doc"]:
                     enabled = False
+                    tdead = None
         # observed
         hits = [dict(it[3]) for it in evs if it[2] == "hit"]
         legacy = [dict(it[3]) for it in evs if it[2] == "legacyhit"]
@@ -542,6 +794,11 @@ def oracle_block(c, groups, log):
                              % (exp_hits[j], t, got, want))
         if ncomp != exp_complete:
             fail("complete-events", "%d completion events at t=%d, %d completions reached" % (ncomp, t, exp_complete))
+        if sn[0] == "nosnap" or not running:
+            if (sn[0] == "nosnap") == running:
+                fail("mode-lifecycle", "at t=%d the block %s a state, its mode is %srunning"
+                     % (t, "has no" if sn[0] == "nosnap" else "has", "" if running else "not "))
+            continue
         val = sn[2]
         if kind == "counter" and val != base + hv * nacc:
             fail("value-formula", "counter value %r at t=%d, start/accepted-hit formula gives %d" % (val, t, base + hv * nacc))
@@ -561,6 +818,8 @@ def oracle(case, out):
     if out.get("exception"):
         fails.append({"sig": "exception", "what": "the machine raised: %s" % out["exception"]})
     for b, c in enumerate(case["blocks"]):
+        if b in out.get("ties", ()):
+            continue
         for f in oracle_block(c, block_groups(case, b), out["logs"][b]):
             if not any(g["sig"] == f["sig"] for g in fails):
                 fails.append(dict(f, what="block b%d (%s): %s" % (b, c["kind"], f["what"])))
@@ -573,7 +832,7 @@ def shrink(case):
     # keep a single block
     if len(blocks) > 1:
         for b in range(len(blocks)):
-            yield {"blocks": [blocks[b]], "timeline": [[t, 0, ev, a, m] for t, bb, ev, a, m in tl if bb == b],
+            yield {"blocks": [blocks[b]], "timeline": [[x[0], 0] + list(x[2:]) for x in tl if x[1] == b],
                    "end": case["end"]}
     # drop operations (halves first, then single ones)
     n = len(tl)
@@ -595,7 +854,7 @@ def shrink(case):
 def _block_facts(case, out, b):
     evs = [it for it in out["logs"][b] if it[0] == "ev"]
     nh = sum(1 for it in evs if it[2] == "hit")
-    ops = [o for t, bb, ev, a, m in case["timeline"] if bb == b for o in m if o[0] in ("Count", "Hit")]
+    ops = [o for x in case["timeline"] if x[1] == b for o in x[4] if o[0] in ("Count", "Hit")]
     return {"hits": nh, "complete": any(it[2] == "complete" for it in evs),
             "timeout": any(it[2] == "timeout" for it in evs), "ignored": len(ops) > nh}
 
@@ -615,20 +874,289 @@ def describe(case):
     return "ops=%s" % ("<60" if n < 60 else "60-120" if n < 120 else "120-180" if n < 180 else ">=180")
 
 
+# ---- blocks configured in a mode: life cycle, persist_state, template values ------------------------
+TM0 = 4000          # first instant of the mode-level timelines (the game of the rig has started by then)
+
+
+def gen_case_modes(rng, tier, i):
+    """one game mode m1 with 5 blocks (3 counters, accrual, sequence); the mode is started and stopped several times
+    while the blocks receive their events (also while the mode is not running); counters take starting_count and
+    count_complete_value from machine variables that change during the history."""
+    kinds = ["counter", "counter", "counter", "accrual", "sequence"]
+    blocks, timeline = [], []
+    span = 0
+    for b, kind in enumerate(kinds):
+        c = gen_cfg(rng, kind)
+        r = rng.random()
+        if r < 0.35:
+            c["roc"], c["doc"] = False, False           # stays completed and enabled: further hits after completion
+        ee = rng.random() < 0.5
+        c["boot_enabled"] = not ee                      # (which events exist: see block_config / gen_ops)
+        c["mode"] = {"enable_events": ee, "start_enabled": rng.choice([None, None, True, False]),
+                     "persist": rng.random() < 0.5}
+        blocks.append(c)
+        t = TM0 + GRID * rng.randrange(0, 4)
+        ops = gen_ops(rng, c, rng.randint(8, 22))
+        if ee and rng.random() < 0.6:
+            ops.insert(rng.randrange(0, 4), [rng.choice([0, 125, 250]), "enable", None, [["Enable"]]])
+        for dt, ev, amount, mops in ops:
+            t += dt
+            timeline.append([t, b, ev, amount, mops])
+            if kind == "counter" and rng.random() < 0.12:
+                if c["goal"] is not None and rng.random() < 0.6:
+                    g = c["goal"] + rng.choice([-2, -1, 1, 2, 3])
+                    timeline.append([t, b, "@goal", g, [["MSetGoal", g]]])
+                else:
+                    z = c["start"] + rng.choice([-2, 1, 2, 5])
+                    timeline.append([t, b, "@start", z, [["MSetStart", z]]])
+        span = max(span, t)
+    # mode starts / stops: the first start early, then 2-6 toggles, sometimes a repeated start / a stop while stopped
+    t = TM0 + GRID * rng.randrange(0, 6)
+    running = False
+    while t < span:
+        r = rng.random()
+        if r < 0.8:
+            ev = "stop" if running else "start"
+        else:
+            ev = "start" if running else "stop"
+        if ev == "start":
+            running = True
+        else:
+            running = False
+        timeline.append([t, -1, "m1_" + ev, None, [["MStart" if ev == "start" else "MStop"]]])
+        t += GRID * rng.choice([1, 2, 3, 4, 6, 8, 12, 16])
+    timeline.sort(key=lambda x: x[0])
+    end = max(x[0] for x in timeline) + rng.choice([0, 125, 1000, 2500])
+    return {"blocks": blocks, "timeline": timeline, "end": end}
+
+
+def mode_block_groups(case, b):
+    g = [(x[0], x[4]) for x in case["timeline"] if x[1] in (b, -1)]
+    g.append((end_time(case), []))
+    return g
+
+
+def run_case_modes(case):
+    from rig import FakeGameRig
+    blocks = case["blocks"]
+    mode_cfg = {"mode": {"start_events": "m1_start", "stop_events": "m1_stop", "priority": 200, "game_mode": True}}
+    mvars = {}
+    for b, c in enumerate(blocks):
+        nm = "b%d" % b
+        sec, d = block_config(nm, c)
+        if c["mode"]["start_enabled"] is not None:
+            d["start_enabled"] = bool(c["mode"]["start_enabled"])
+        if c["mode"]["persist"]:
+            d["persist_state"] = True
+        if c["kind"] == "counter":
+            d["starting_count"] = "machine.%s_start" % nm
+            mvars["%s_start" % nm] = {"initial_value": c["start"], "value_type": "int", "persist": False}
+            if c["goal"] is not None:
+                d["count_complete_value"] = "machine.%s_goal" % nm
+                mvars["%s_goal" % nm] = {"initial_value": c["goal"], "value_type": "int", "persist": False}
+        mode_cfg.setdefault(sec, {})[nm] = d
+    rig = FakeGameRig({"modes": ["m1"], "machine_vars": mvars}, modes={"m1": mode_cfg})
+    rig.start()
+    try:
+        m = rig.machine
+        logs = [[] for _ in blocks]
+        devs = []
+
+        def ms():
+            x = rig.now() * 1000.0
+            r = int(round(x))
+            return r if abs(x - r) < 1e-6 else -1
+
+        def mk(b, what):
+            def handler(**kwargs):
+                kw = {k: _canon_val(v) for k, v in kwargs.items()}
+                logs[b].append(["ev", ms(), what, [[k, kw[k]] for k in sorted(kw)]])
+            return handler
+
+        for b, c in enumerate(blocks):
+            nm = "b%d" % b
+            coll = {"counter": m.counters, "accrual": m.accruals, "sequence": m.sequences}[c["kind"]]
+            devs.append(coll[nm])
+            m.events.add_handler("logicblock_%s_updated" % nm, mk(b, "updated"))
+            m.events.add_handler("logicblock_%s_hit" % nm, mk(b, "hit"))
+            m.events.add_handler("logicblock_%s_complete" % nm, mk(b, "complete"))
+            m.events.add_handler("%s_timeout" % nm, mk(b, "timeout"))
+            if c["kind"] == "counter":
+                m.events.add_handler("counter_%s_hit" % nm, mk(b, "legacyhit"))
+
+        def snap(b):
+            d = devs[b]
+            v = d.value
+            if d._state is None:
+                if v is not None or d.enabled or d.completed:
+                    logs[b].append(["ev", ms(), "bad-nostate", []])
+                logs[b].append(["nosnap", ms()])
+                return
+            logs[b].append(["snap", ms(), _canon_val(list(v) if isinstance(v, list) else v),
+                            bool(d.enabled), bool(d.completed), bool(getattr(d, "ignore_hits", False)),
+                            bool(d.delay.check("timeout")), bool(d.delay.check("ignore_hits_within_window"))])
+
+        rig.advance(1.0 - rig.now())
+        rig.start_game()
+        if m.game is None or m.game.player is None or rig.now() > TM0 / 1000.0:
+            return {"error": "game did not start in time: %r" % rig.now()}
+        rig.advance(TM0 / 1000.0 - rig.now())
+        if rig.now() != TM0 / 1000.0:
+            return {"error": "could not align the clock: %r" % rig.now()}
+        for x in case["timeline"]:
+            t, b, ev, amount = x[0], x[1], x[2], x[3]
+            now = rig.now()
+            if t / 1000.0 > now:
+                rig.advance(t / 1000.0 - now)
+            if rig.now() != t / 1000.0:
+                return {"error": "clock off grid: %r vs %r" % (rig.now(), t)}
+            if ev == "@goal":
+                m.variables.set_machine_var("b%d_goal" % b, amount)
+                rig.advance(0)
+            elif ev == "@start":
+                m.variables.set_machine_var("b%d_start" % b, amount)
+                rig.advance(0)
+            elif b < 0:
+                rig.post(ev)
+            elif amount is None:
+                rig.post("b%d_%s" % (b, ev))
+            else:
+                rig.post("b%d_%s" % (b, ev), amount=amount)
+            for bb in (range(len(blocks)) if b < 0 else [b]):
+                snap(bb)
+        if m.game is None or m.game.player is None:
+            return {"error": "the game ended"}
+        if end_time(case) / 1000.0 > rig.now():
+            rig.advance(end_time(case) / 1000.0 - rig.now())
+        for b in range(len(blocks)):
+            snap(b)
+        exc = rig.exception()
+        out = {"logs": logs}
+        if exc:
+            out["exception"] = repr(exc)[:300]
+        return out
+    finally:
+        rig.stop()
+
+
+def coq_mop(o):
+    if o[0] in ("MStart", "MStop"):
+        return o[0]
+    if o[0] in ("MSetGoal", "MSetStart"):
+        return "(%s %s)" % (o[0], zlit(o[1]))
+    return "(MOp %s)" % coq_op(o)
+
+
+def coq_case_modes(case, out):
+    if "logs" not in out:
+        return None
+    ins, exps = [], []
+    for b, c in enumerate(case["blocks"]):
+        mo = c["mode"]
+        mc = "(mkM %s %s %s)" % (opt(mo["start_enabled"], blit), blit(mo["enable_events"]), blit(mo["persist"]))
+        ins.append("(%s, %s, %s)" % (mc, coq_cfg(c), coqlist("(%s, %s)" % (zlit(t), coqlist(coq_mop(o) for o in mops))
+                                                             for t, mops in mode_block_groups(case, b))))
+        terms = []
+        for it in out["logs"][b]:
+            if it[0] == "nosnap":
+                terms.append("(MNoState %s)" % zlit(it[1]))
+            else:
+                terms.append("(MO %s)" % coq_obs(c, it))
+        exps.append(coqlist(terms))
+    return "(%s, %s)" % (coqlist(ins), coqlist(exps))
+
+
+HDR_M = ("From C18 Require Import Model MBlock.\n"
+         "Definition run (i : list (mcfg * cfg * list (Z * list mop))) : list (list mobs) := map C18.MBlock.mrun_case i.\n"
+         "Definition out_eqb : list (list mobs) -> list (list mobs) -> bool := list_eqb C18.MBlock.mout_eqb.\n")
+
+
+def oracle_modes(case, out):
+    if "error" in out:
+        return [{"sig": "rig-clock", "what": out["error"]}]
+    fails = []
+    if out.get("exception"):
+        fails.append({"sig": "exception", "what": "the machine raised: %s" % out["exception"]})
+    for b, c in enumerate(case["blocks"]):
+        for f in oracle_block(c, mode_block_groups(case, b), out["logs"][b]):
+            if not any(g["sig"] == f["sig"] for g in fails):
+                fails.append(dict(f, what="block b%d (%s, in mode): %s" % (b, c["kind"], f["what"])))
+    return fails
+
+
+def shrink_modes(case):
+    blocks, tl = case["blocks"], case["timeline"]
+    if len(blocks) > 1:
+        for b in range(len(blocks)):
+            yield {"blocks": [blocks[b]], "end": case["end"],
+                   "timeline": [[x[0], 0 if x[1] == b else -1] + list(x[2:]) for x in tl if x[1] in (b, -1)]}
+    n = len(tl)
+    if n > 3:
+        yield dict(case, timeline=tl[:n // 2])
+    for i in range(n - 1, -1, -1):
+        if n > 1:
+            yield dict(case, timeline=tl[:i] + tl[i + 1:])
+    if tl and case["end"] > tl[-1][0]:
+        yield dict(case, end=tl[-1][0])
+    for b, c in enumerate(blocks):
+        for k, v in (("timeout", 0), ("window", 0), ("doc", False), ("roc", False)):
+            if c.get(k):
+                yield dict(case, blocks=blocks[:b] + [dict(c, **{k: v})] + blocks[b + 1:])
+
+
+def nontrivial_modes(case, out):
+    """some block posted a hit while its mode ran, received operations while it did not, and the mode was
+    started at least twice"""
+    if "logs" not in out:
+        return False
+    starts = sum(1 for x in case["timeline"] if x[2] == "m1_start")
+    for log in out["logs"]:
+        if any(it[0] == "ev" and it[2] == "hit" for it in log) and any(it[0] == "nosnap" for it in log) and starts >= 2:
+            return True
+    return False
+
+
+def nontrivial_delayed(case, out):
+    """a burst is in flight: two posts of one delayed event of a block less than its delay apart, and the block
+    posted a hit or changed state"""
+    if "logs" not in out:
+        return False
+    last = {}
+    for x in case["timeline"]:
+        d = _delay(x)
+        if d:
+            k = (x[1], x[2])
+            if k in last and x[0] - last[k] < d and x[1] not in out.get("ties", ()):
+                return True
+            last[k] = x[0]
+    return False
+
+
 SUITES = [
     Suite("blocks", gen_case, run_case, HDR, coq_case, oracle, shrink, nontrivial,
-          {"quick": 240, "thorough": 4000}, shard=40, describe=describe, case_timeout=120),
+          {"quick": 160, "thorough": 4000}, shard=21, describe=describe, case_timeout=120),
+    Suite("delayed", gen_case_delayed, run_case, HDR_D, coq_case_delayed, oracle, shrink, nontrivial_delayed,
+          {"quick": 60, "thorough": 1000}, shard=16, describe=describe, case_timeout=120),
+    Suite("modes", gen_case_modes, run_case_modes, HDR_M, coq_case_modes, oracle_modes, shrink_modes, nontrivial_modes,
+          {"quick": 60, "thorough": 1000}, shard=16, describe=describe, case_timeout=120),
 ]
 
 LEVEL_TEXT = ("Machine-checked proof (Coq) over an executable model of Counter/Accrual/Sequence (state: enabled, completed, "
               "value, hit-window flag, the two pending delays) that for every configuration and every history of operations "
-              "and delay expiries the counter value equals start + direction*interval*(accepted hits since the last reset), "
-              "hit events are posted once per accepted hit, a completion event is posted exactly when an operation reaches "
-              "the goal of a not-yet-completed block and is followed by the configured reset/disable, accruals complete on "
-              "any order of their steps and sequences only advance on the current step; the model is tied to /repo on every "
-              "run by comparing complete event traces and state snapshots of real machine-level blocks on a virtual clock.")
-LEVEL_NOTE = ("Trusted: Coq kernel + vm_compute; no axioms. Model hand-written; correspondence validates it against the working "
-              "tree (EventManager, DelayManager and the test clock are the real ones). Mode-level blocks / player persistence "
-              "are not modelled (C07/C11).")
+              "and delay expiries the counter value equals start + direction*|interval|*(accepted hits since the last reset) "
+              "(spelled out for both directions, any interval, interval 0), hit events are posted once per accepted hit, a "
+              "completion event is posted exactly when an operation reaches the goal of a not-yet-completed block and is "
+              "followed by the configured reset/disable, accruals complete on any order of their steps and sequences only "
+              "advance on the current step (one step for an event bound to two consecutive steps), a hit exactly at the end "
+              "of the hit window counts; that control events configured with a delay are each delivered exactly once at post "
+              "time + delay in due order (none replaces another: a plain counter counts every posted hit); and that a block "
+              "configured in a mode ignores everything while the mode is not running, drops (or with persist_state keeps) "
+              "its state at mode stop, starts enabled per start_enabled / enable_events, obeys the value formula across "
+              "mode restarts and re-evaluates template values. The three models are tied to /repo on every run by comparing "
+              "complete event traces and state snapshots of real blocks on a virtual clock.")
+LEVEL_NOTE = ("Trusted: Coq kernel + vm_compute; no axioms. Models hand-written; correspondence validates them against the "
+              "working tree (EventManager, DelayManager, modes, machine variables and the test clock are the real ones). "
+              "Per-player restore across player changes is not modelled (C07/C11); deliveries tied with a block's own delay "
+              "are excluded.")
 TECHNIQUE = "Coq proof over hand-written executable model + differential correspondence (vm_compute) + direct property oracle"
 DESIGN_REF = "DESIGN.md section 3, C18"
